@@ -10,6 +10,8 @@ import common
 sys.path.insert(0, os.path.join(common.VERIF, "tx"))
 import rk as txrk
 import stepctl as txctl
+import stepctlgen as txgen
+import trunc as txtrunc
 
 PRE = "import renormalizer\nimport numpy as np, scipy.linalg as sla, sys\nfrom renormalizer.model import Model, Op, basis as ba\n" \
       "from renormalizer.mps import Mps, Mpo, MpDm\nfrom renormalizer.utils import EvolveConfig, EvolveMethod, CompressConfig, CompressCriteria\n" \
@@ -220,6 +222,15 @@ def td_coq_text(runs, tabs):
     return "\n".join(lines) + "\n"
 
 
+def dims_coq_text(cases):
+    zl = lambda xs: "[" + "; ".join("%d" % x for x in xs) + "]"
+    lines = ["From RV Require Import Gen.RkTableaux Model.Dims.", "From Coq Require Import List ZArith.", "Import ListNotations.", "Open Scope Z_scope."]
+    for c in cases:
+        e = {"taylor": "(taylor_dexp %d)" % c["arg"], "tdrk4": "tdrk4_dexp", "rk": "(rk_dexp tab_%d)" % c["arg"]}[c["kind"]]
+        lines.append("Eval vm_compute in (dbound %s %s %s %s)." % (zl(c["din"]), zl(c["dop"]), zl([c["limit"]] * len(c["din"])), e))
+    return "\n".join(lines) + "\n"
+
+
 def close(a, b, rel=1e-10):
     return abs(a - b) <= rel * max(abs(a), abs(b), 1e-300)
 
@@ -330,7 +341,7 @@ def run(ctx):
     nontriv = 0
     samples = []
     ctx.trusted += [
-        "translators tx/rk.py (tableaux, Taylor coefficients) and tx/stepctl.py (safeguard constants of the three controllers; which variable receives the general-RK trial result) -- fail-closed python-ast readers",
+        "translators tx/rk.py (tableaux, Taylor coefficients), tx/stepctl.py (safeguard constants; which variable receives the general-RK trial result), tx/stepctlgen.py (decision logic of the three controllers: symbolic execution of the loop bodies into step functions), tx/trunc.py (kept-count rule, shared with C05) -- fail-closed python-ast readers",
         "correspondence harness/c09.py + harness/impl/c09_{pc,ctl,ps}.py: one-step P&C results vs dense polynomials with coefficients exported from the Coq model; controller traces parsed from the implementation's own DEBUG log and replayed through Model/StepCtl.v with the logged estimates; projector-splitting event traces observed by logging shims around expm_krylov/solve_ivp/svd_qn/__setitem__/_update_mps",
         "hand-written models Model/Prop.v, Model/StepCtl.v (control flow), Model/PsSweep.v (tied by the correspondences above, not translated)",
         "modelled, not verified: binary64 rounding; compress()/canonicalise() as the identity at sufficient bond dimension; np.allclose termination tests modelled as exact equality; accuracy of every TDVP scheme (PS, PS2, VMF, CMF), of expm_krylov / RK45, the regularised inverse -- observed by the dense oracle only",
@@ -353,11 +364,24 @@ def run(ctx):
     except Exception as e:
         ctx.notes.append("translator tx/stepctl.py failed: %r" % (e,))
         broken.append("translator tx/stepctl.py")
+    try:
+        # the kept-count rule of compress (shared with C05): regenerated here too so that it matches the tree under test
+        ctx.regen("Gen/Trunc.v", txtrunc.main(common.REPO)[0])
+    except Exception as e:
+        ctx.notes.append("translator tx/trunc.py failed: %r" % (e,))
+        broken.append("translator tx/trunc.py")
+    ginfo = None
+    try:
+        text3, ginfo = txgen.main(common.REPO)
+        ctx.regen("Gen/StepCtlGen.v", text3)
+    except Exception as e:
+        ctx.notes.append("translator tx/stepctlgen.py failed: %r" % (e,))
+        broken.append("translator tx/stepctlgen.py (decision logic of the step-size controllers): %r" % (e,))
     # ------------------------------------------------------------------ 2. proofs
     ok_build, log = (False, "translator failed")
     ok_props = False
-    if tabs is not None and cinfo is not None:
-        ok_build, log = ctx.coq_make(["Proofs/PropProofs.vo", "Proofs/StepCtlProofs.vo", "Proofs/PsSweepProofs.vo"])
+    if tabs is not None and cinfo is not None and ginfo is not None:
+        ok_build, log = ctx.coq_make(["Proofs/PropProofs.vo", "Proofs/StepCtlProofs.vo", "Proofs/PsSweepProofs.vo", "Proofs/DimsProofs.vo"])
         if ok_build:
             ok_props, log = ctx.props("Props/C09.v")
     if not ok_build:
@@ -381,6 +405,8 @@ def run(ctx):
     if ok_build:
         for i in range(4 if quick else 10):
             jobs.append(("ctl", {"script": "c09_ctl.py", "seed": seed + 101 * i, "n": 3 if quick else 6, "budget_s": 60 if quick else 600}))
+        for i in range(1 if quick else 4):
+            jobs.append(("dims", {"script": "c09_dims.py", "seed": seed + 31 * i, "n": 2 if quick else 4}))
         for i in range(2 if quick else 6):
             jobs.append(("td", {"script": "c09_td.py", "seed": seed + 53 * i, "n": 3 if quick else 5}))
         for i in range(2 if quick else 6):
@@ -390,9 +416,9 @@ def run(ctx):
     for i in range(nsh):
         jobs.append(("oracle", {"script": "c09_oracle.py", "seed": seed, "shard": i, "nshards": nsh, "tier": ctx.tier, "budget_s": budget}))
     # the long oracle shards first
-    jobs.sort(key=lambda j: {"oracle": 0, "pc": 1, "ctl": 2, "td": 3, "ps": 4}[j[0]])
+    jobs.sort(key=lambda j: {"oracle": 0, "pc": 1, "ctl": 2, "td": 3, "dims": 3, "ps": 4}[j[0]])
     results = ctx.impl_par("c09_dispatch.py", [p for _, p in jobs], timeout=(420 if quick else 3000), par=14)
-    by = {"pc": [], "ctl": [], "ps": [], "oracle": [], "td": []}
+    by = {"pc": [], "ctl": [], "ps": [], "oracle": [], "td": [], "dims": []}
     for (kind, _), r in zip(jobs, results):
         by[kind].append(r)
     # ---- P&C tie
@@ -442,8 +468,24 @@ def run(ctx):
                 corr_bad.append({"what": "time-dependent adaptive run raised / incomplete log", "run": {k: v for k, v in r.items() if k != "sample_times"}})
             elif len(r["its"]) <= 30:
                 td_runs.append(r)
+    # ---- bond limits
+    dim_cases = []
+    dim_other = []
+    for rc, res, raw in by["dims"]:
+        if res is None or "cases" not in res:
+            corr_bad.append({"what": "c09_dims.py failed", "out": (raw or "")[-800:]})
+            continue
+        for c in res["cases"]:
+            if c["exc"] is not None:
+                corr_bad.append({"what": "scheme raised in the bond-limit runs", "case": c})
+            elif c["kind"] in ("taylor", "tdrk4", "rk"):
+                dim_cases.append(c)
+            else:
+                dim_other.append(c)
     # ---- replay both through the Coq models
     items = []
+    if dim_cases:
+        items.append(("dims", dims_coq_text(dim_cases)))
     if td_runs and tabs is not None:
         items.append(("td", td_coq_text(td_runs, tabs)))
     if traces:
@@ -473,6 +515,32 @@ def run(ctx):
             samples.append({"controller": traces[0]["ctl"], "target": traces[0]["target"], "guess0": traces[0]["guess0"],
                             "iterations": [(i["dt"], i["p"], i["outcome"]) for i in traces[0]["its"][:4]]})
         ctx.notes.append("controller traces: %d replayed, %d equal, %d ended early by allclose (residual), %d longer than 30 iterations not replayed" % (n_ctl, n_ctl_ok, n_resid, n_long))
+    n_dims = n_dims_ok = 0
+    dim_bad = []
+    if dim_cases and ok_build:
+        rc, out = outs.get("dims", (1, ""))
+        zl = common.parse_Z_lists(out) if rc == 0 else []
+        if len(zl) != len(dim_cases):
+            corr_bad.append({"what": "dbound evaluation in Coq failed", "out": out[-800:]})
+        else:
+            for c, bound in zip(dim_cases, zl):
+                n_dims += 1
+                ev += 1
+                if len(bound) == len(c["out"]) and all(o <= b <= c["limit"] for o, b in zip(c["out"], bound)):
+                    n_dims_ok += 1
+                    if max(c["din"]) * max(c["dop"]) > c["limit"]:
+                        nontriv += 1          # the limit was actually binding
+                else:
+                    dim_bad.append(dict(c, interpreter_bound=bound))
+    for c in dim_other:                        # adaptive runs and the two-site sweep: the theorem's bound is the limit itself
+        n_dims += 1
+        ev += 1
+        if all(o <= c["limit"] for o in c["out"]):
+            n_dims_ok += 1
+        else:
+            dim_bad.append(c)
+    if n_dims:
+        ctx.notes.append("bond limit: %d scheme runs, %d with bond_dims <= interpreter bound <= limit" % (n_dims, n_dims_ok))
     n_td = n_td_ok = 0
     if td_runs and ok_build and tabs is not None:
         rc, out = outs.get("td", (1, ""))
@@ -553,6 +621,8 @@ def run(ctx):
              "model": "C09_tdrk_state_time_refuted (compiled): exists a terminating run whose state has been propagated by more than the requested time"})
     if td_classes:
         classes.setdefault("tdrk-adaptive-callable-time-offset", []).extend(td_classes)
+    if dim_bad:
+        classes.setdefault("oracle/bond-limit/" + dim_bad[0]["kind"], []).extend(dim_bad)
     for key, recs in sorted(classes.items()):
         repro = REPROS.get(key)
         found = repro is not None
@@ -574,6 +644,6 @@ def run(ctx):
             "rule": "P&C: a (model, state, scheme, tableau/order, dt) case counts once its dense result matched the Coq-exported polynomial to 1e-10; controllers: a trace counts if it has more than one iteration or a rejection and equals the model; PS: a run counts if its whole event sequence equals the model; oracle checks are counted in evaluations only",
             "samples": samples[:3], "exhaustive": False,
             "input_distribution": {"pc_cases": n_pc, "controller_traces": n_ctl, "controller_traces_equal": n_ctl_ok,
-                                   "controller_allclose_residual": n_resid, "ps_runs": n_ps, "ps_runs_equal": n_ps_ok, "time_dependent_adaptive_runs": n_td, "time_dependent_adaptive_runs_ok": n_td_ok,
+                                   "controller_allclose_residual": n_resid, "ps_runs": n_ps, "ps_runs_equal": n_ps_ok, "bond_limit_runs": n_dims, "bond_limit_runs_ok": n_dims_ok, "time_dependent_adaptive_runs": n_td, "time_dependent_adaptive_runs_ok": n_td_ok,
                                    "oracle_checks": n_or, "oracle_jobs_skipped": skipped,
                                    "violation_classes": {k: len(v) for k, v in classes.items()}}}
